@@ -131,6 +131,32 @@ def wrap(val, holder=None):
 EMPTY = frozenset()
 
 
+def _immutable_operand(expr):
+    '''The right operand of an augmented assignment is certainly a str or a
+    number: a literal, an f-string, `%`-formatting / concatenation with a
+    string literal, str.format / str.join on a literal.  (Assumption: `+=`
+    with such an operand acts on a str / number, not on a list extended
+    character by character.)'''
+    if isinstance(expr, ast.Constant) and isinstance(
+            expr.value, (str, int, float, complex, bytes)):
+        return True
+    if isinstance(expr, ast.JoinedStr):
+        return True
+    if isinstance(expr, ast.BinOp) and isinstance(expr.op, (ast.Add,
+                                                            ast.Mod)):
+        return _immutable_operand(expr.left) or (
+            isinstance(expr.op, ast.Add) and _immutable_operand(expr.right))
+    if isinstance(expr, ast.Call) and isinstance(expr.func, ast.Attribute) \
+            and expr.func.attr in ('format', 'join') and isinstance(
+                expr.func.value, ast.Constant) and isinstance(
+                    expr.func.value.value, str):
+        return True
+    if isinstance(expr, ast.Call) and isinstance(expr.func, ast.Name) and \
+            expr.func.id in ('str', 'repr', 'len', 'int', 'float'):
+        return True
+    return False
+
+
 class Effect:
     __slots__ = ('root', 'depth', 'lineno', 'what', 'func', 'chain', 'kind',
                  'field')
@@ -399,7 +425,11 @@ class _FuncAnalysis:
         elif isinstance(stmt, ast.AugAssign):
             val = self.ev(stmt.value, env)
             tgt = stmt.target
-            if isinstance(tgt, ast.Name):
+            if isinstance(tgt, ast.Name) and _immutable_operand(stmt.value):
+                # s += '.' + x ; n += 1: the left operand is a str / number,
+                # the name is re-bound to a new immutable object
+                env[tgt.id] = EMPTY
+            elif isinstance(tgt, ast.Name):
                 cur = env.get(tgt.id, EMPTY)
                 # in-place operator on a mutable shared object
                 self._write(cur, stmt, f'in-place {txt(stmt)[:60]}')
